@@ -79,7 +79,11 @@ class FS:
         return self.fault_at is not None and self.fault_at == idx
 
     def fail(self, name):
-        raise PyRaise(ExcVal(OSError, (f"injected fault in {name}",), site=f"fs:{name}"))
+        # the failing operation raises OSError or one of its subclasses (a handler that singles one out - "a missing
+        # file is fine" - is a path of its own)
+        classes = [OSError, FileNotFoundError, PermissionError]
+        kk = self.it.ctx.choose([z3.BoolVal(True)] * len(classes), labels=[c.__name__ for c in classes], site=f"fs:{name}:class")
+        raise PyRaise(ExcVal(classes[kk], (f"injected fault in {name}",), site=f"fs:{name}"))
 
     # ---- crash states
     def crash_states(self, lose_unsynced=True):
